@@ -4,6 +4,7 @@ package main
 import (
 	"verifharness/hx"
 	"verifharness/lazyx"
+	"verifharness/poolx"
 	"verifharness/reusex"
 	"verifharness/tdcx"
 )
@@ -15,4 +16,5 @@ func main() {
 	tdcx.Drive(w, o, "C09", func(s string) string { return "(KTdc " + s + ")" })
 	lazyx.Drive(w, o, func(s string) string { return "(KLazy " + s + ")" })
 	reusex.Drive(w, o, func(s string) string { return "(KReuse " + s + ")" })
+	poolx.DriveBursts(w, o, func(s string) string { return "(KBurst " + s + ")" })
 }
